@@ -861,8 +861,13 @@ func (s *irState) typeGuard() {
 			ok = true // records / raises the error itself
 		case x.op == "?":
 			ok = true // opcode chosen by the caller (primitive and unmarshaler opcodes validate the token themselves)
-		case strings.HasPrefix(x.op, "label-from:checkIfSkip"), strings.HasPrefix(x.op, "call:"):
+		case strings.HasPrefix(x.op, "call:"):
 			ok = true
+		case strings.HasPrefix(x.op, "label-from:"):
+			// a helper that returns a label (checkIfSkip on the tree, whatever it is called): accepted when the
+			// helper's own emission starts with the guard pair check_char_0 + dismatch_err
+			ci := s.an.funcs[strings.TrimPrefix(x.op, "label-from:")]
+			ok = ci != nil && startsWithTypeGuard(ci.fd)
 		}
 		if !ok {
 			what := strings.TrimPrefix(x.op, "_OP_")
@@ -873,6 +878,29 @@ func (s *irState) typeGuard() {
 				"after is_null the emitted program executes `" + what + "` (at " + s.p.Pos(x.pos) + ") without a type guard (check_char_0 + dismatch_err / checkIfSkip): a value of another JSON type is consumed silently instead of being reported as a type mismatch"})
 		}
 	}
+}
+
+// startsWithTypeGuard: the first two opcodes the helper's body emits (call statements with an _OP_ constant
+// among their arguments, in source order) are _OP_check_char_0 and _OP_dismatch_err.
+func startsWithTypeGuard(fd *ast.FuncDecl) bool {
+	if fd == nil || fd.Body == nil {
+		return false
+	}
+	var ops []string
+	ast.Inspect(fd.Body, func(n ast.Node) bool {
+		call, ok := n.(*ast.CallExpr)
+		if !ok || len(ops) >= 2 {
+			return true
+		}
+		for _, a := range call.Args {
+			if id, ok := ast.Unparen(a).(*ast.Ident); ok && strings.HasPrefix(id.Name, "_OP_") {
+				ops = append(ops, id.Name)
+				break
+			}
+		}
+		return true
+	})
+	return len(ops) >= 2 && ops[0] == "_OP_check_char_0" && ops[1] == "_OP_dismatch_err"
 }
 
 // grammar (G1): after a ',' separator the emitted decoder program must not accept the
